@@ -290,13 +290,18 @@ class R1Synth(object):
         return res
 
 
-def synth_final_inputs(case, supplied_names):
+def synth_final_inputs(case, supplied_names, run=None):
     """model-side typed inputs for the names that were supplied in a run"""
     out = {}
     for n in supplied_names:
         p = case['persona'].get(n)
         if p is None:
             raise core.HarnessError(f'input {n} supplied but not in persona')
+        if 'default_text' in p and run is not None and n not in run.monitor.answered:
+            sec, key = n.rsplit('.', 1)
+            if (run.config_items or {}).get((sec, key), '').strip() == p['default_text']:
+                out[n] = ('ok', decode(p['default_typed']))      # provided by the [DEFAULT] section
+                continue
         out[n] = ('invalid', p['text']) if p['invalid'] else ('ok', decode(p['typed']))
     return out
 
